@@ -195,12 +195,19 @@ def gen_orders():
     lines.append('')
     plain = plain_accesses('include/binlog/detail/QueueWriter.hpp', 'QueueWriter', 'dataEnd') + \
         plain_accesses('include/binlog/detail/QueueReader.hpp', 'QueueReader', 'dataEnd')
-    lines.append('/-- every access of the NON-ATOMIC `dataEnd`, with the syntactically visible conditions it is executed under -/')
-    lines.append('def queuePlainAccesses : List (String × String × String × String) := [')
-    lines.append(',\n'.join('  (%s, %s, %s, %s)' % tuple(lean_str(x) for x in a) for a in plain))
+    sites = []
+    for a in plain:
+        if a[:3] not in sites:
+            sites.append(a[:3])
+    lines.append('/-- which functions access the NON-ATOMIC `dataEnd`, and how.  The CONDITIONS under which they do are not matched as')
+    lines.append('    text: they are computed from the translated source (`Src.*.dataEnd_read/_written`, Generated/SrcQueue.lean) and proved')
+    lines.append('    equal to the model\'s in Lemmas/SrcBridgeQueue.lean (`beginRead_dataEnd`, `unreadWriteSize_dataEnd`,')
+    lines.append('    `maximizeWriteCapacity_dataEnd`), so renaming a local or inverting a branch changes nothing. -/')
+    lines.append('def queuePlainAccesses : List (String × String × String) := [')
+    lines.append(',\n'.join('  (%s, %s, %s)' % tuple(lean_str(x) for x in a) for a in sites))
     lines.append(']')
     lines.append('')
-    lines.append('/-- the consumer reads `dataEnd` only on the wrapped path (`r > w`), as the model\'s `cBegin` does: elsewhere the read would race with the producer\'s next wrap -/')
+    lines.append('/-- only the functions the model knows touch `dataEnd`: the consumer in `beginRead` (read), the producer in `unreadWriteSize` (read) and `maximizeWriteCapacity` (write) -/')
     lines.append('theorem queuePlainAccesses_match : queuePlainAccesses = Q.modelPlainAccesses := by decide')
     lines.append('')
     lines.append('end BinlogVerif.Generated')
